@@ -113,7 +113,8 @@ PList(d, p) == IF p \in DOMAIN atts[d] THEN atts[d][p] ELSE IF p \in DOMAIN old[
 LegalKP(d, k, p) ==
   LET t == tree[d] IN
   CASE k = "put"  -> \/ p = 0 /\ (IF DOMAIN t = {} THEN TRUE ELSE t[cur[d]].d)
-                     \/ p \in Leaves(t) /\ (allow \/ p = cur[d])          \* (a tombstoned leaf too: the child resurrects that branch)
+                     \/ p \in Leaves(t) /\ (allow \/ p = cur[d] \/ t[cur[d]].d)    \* (a tombstoned leaf too: the child resurrects that branch;
+                                                                                  \*  IsIllegalConflict case (c): any leaf while the winner is a tombstone)
     [] k = "del"  -> p \in Leaves(t) /\ ~t[p].d /\ (allow \/ p = cur[d])
     [] k = "push" -> IF allow THEN p = 0 \/ (p \in DOMAIN t /\ ~t[p].d)
                      ELSE \/ p = 0 /\ (IF DOMAIN t = {} THEN TRUE ELSE t[cur[d]].d)      \* IsIllegalConflict case (c): a disconnected branch onto a tombstoned document
